@@ -197,7 +197,7 @@ PROPS = {
   'quick': {'cases': 4800, 'max_size': 300, 'exhaustive': True, 'wall_s': 1200},
   'thorough': {'cases': 96000, 'max_size': 400, 'exhaustive': True, 'wall_s': 3400},
   'sim': ['simsock', 'fakecurl', 'simclock'],
-  'essential_classes': ['backend:http', 'http:transfer-faults', 'http:request-after-failed-transfer', 'http:cache-full', 'add:accepted', 'add:cache-full', 'returned:response', 'returned:error', 'op:stale', 'op:early-reply', 'early-reply-queued', 'stale-reply-queued', 'op:close', 'op:reset', 'op:refuse-next', 'op:advance', 'op:block-send', 'closed-inside-a-pdu', 'push-config-delivered', 'cache-size:5+'],
+  'essential_classes': ['op:resize-cache', 'resize-cache:while-full', 'http:response-body-with-several-pdus', 'backend:http', 'http:transfer-faults', 'http:request-after-failed-transfer', 'http:cache-full', 'add:accepted', 'add:cache-full', 'returned:response', 'returned:error', 'op:stale', 'op:early-reply', 'early-reply-queued', 'stale-reply-queued', 'op:close', 'op:reset', 'op:refuse-next', 'op:advance', 'op:block-send', 'closed-inside-a-pdu', 'push-config-delivered', 'cache-size:5+'],
   'assumptions': ['simulated socket semantics as documented in sim/simnet.hpp'],
  }, 'C14': {
   'technique': 'metamorphic property testing (rapidcheck + exhaustive split points): chunked vs unchunked delivery over simulated sockets, request-stream integrity, faults at generated byte offsets',
@@ -211,7 +211,7 @@ PROPS = {
   'quick': {'cases': 3200, 'max_size': 300, 'exhaustive': True, 'wall_s': 1200},
   'thorough': {'cases': 64000, 'max_size': 400, 'exhaustive': True, 'wall_s': 3400},
   'sim': ['simsock', 'fakecurl', 'simclock'],
-  'essential_classes': ['mode:handles-added-again', 'mode:random-chunks', 'mode:close-at-offset', 'mode:reset-at-offset', 'mode:blocking-chunks', 'mode:blocking-truncated', 'mode:cut-inside-request-stream', 'eintr-injected', 'split-inside-header', 'request-on-fresh-connection', 'request-cut-short-by-connection-end', 'baseline-with-completed-responses'],
+  'essential_classes': ['connect:never-completes', 'connect:refused(IN|OUT|ERR|HUP)', 'connect:refused(ERR|HUP)', 'connect-timeout:non-zero', 'mode:handles-added-again', 'mode:random-chunks', 'mode:close-at-offset', 'mode:reset-at-offset', 'mode:blocking-chunks', 'mode:blocking-truncated', 'mode:cut-inside-request-stream', 'eintr-injected', 'split-inside-header', 'request-on-fresh-connection', 'request-cut-short-by-connection-end', 'baseline-with-completed-responses'],
   'assumptions': ['simulated socket semantics as documented in sim/simnet.hpp'],
  }, 'C15': {
   'technique': 'exhaustive outcome/order table + rapidcheck for configuration sets, over simulated endpoints; oracle = first-valid-wins model and a reference fold',
@@ -236,7 +236,7 @@ PROPS = {
   'quick': {'cases': 3200, 'max_size': 300, 'wall_s': 900},
   'thorough': {'cases': 64000, 'max_size': 400, 'wall_s': 3000, 'fuzz': {'runs': 40000, 'max_len': 1500, 'jobs': 16}},
   'sim': ['simsock', 'fakecurl', 'simclock'],
-  'essential_classes': ['derive:extend-to-borrowed-record', 'verify:with-user-publications-file', 'shared-verification-context', 'pool:unknown-extension-elements', 'pool:consistent', 'pool:inconsistent', 'pool:legacy', 'history:verifies-with-different-outcomes', 'history:with-derive-operation', 'derive:extended', 'derive:root-level', 'derive:prepended', 'both-cache-configurations'],
+  'essential_classes': ['log:debug-with-failing-logger', 'derive:extend-to-borrowed-record', 'verify:with-user-publications-file', 'shared-verification-context', 'pool:unknown-extension-elements', 'pool:consistent', 'pool:inconsistent', 'pool:legacy', 'history:verifies-with-different-outcomes', 'history:with-derive-operation', 'derive:extended', 'derive:root-level', 'derive:prepended', 'both-cache-configurations'],
   'assumptions': ['reference extender is stateless, so fresh-context verifications see the same server behaviour'],
  },
  'C10': {
